@@ -210,4 +210,153 @@ example :
     (valAt (sumPoints ((amcollect c (amrunRev c h1) 0 s1).2.2 0)) 1,
      valAt (sumPoints ((amcollect c (amrunRev c (.collect 0 s1 :: h1)) 0 s2).2.2 0)) 1) = (10, 15) := by decide
 
+/-! ## Synchronous gauges at the meter -/
+
+/-- the records and collections synchronous gauge `i` sees in a meter history; a sample carries the meter's sample
+    clock at the moment of the `Record` (a proof device: the statement below only speaks about values) -/
+def lopsOf (c : Cfg) (i : Nat) : List AOp → List LOp
+  | [] => []
+  | .grec j a v :: o =>
+    if j = i ∧ (kindsOf o)[i]? = some .syncGauge then .record a ⟨v, (amrunRev c o).clock + 1⟩ :: lopsOf c i o
+    else lopsOf c i o
+  | .collect r _ :: o => .collect r (collectsInA o + 1) :: lopsOf c i o
+  | .create _ :: o => lopsOf c i o
+  | .addcb _ _ :: o => lopsOf c i o
+  | .rmcb _ _ :: o => lopsOf c i o
+  | .destroy _ :: o => lopsOf c i o
+
+/-- **Specification**: the value most recently recorded on synchronous gauge `i` for attribute set `x` -/
+def latestGaugeValue (i : Nat) : List AOp → Nat → Option Int
+  | [], _ => none
+  | .grec j a v :: o, x =>
+    if j = i ∧ (kindsOf o)[i]? = some .syncGauge ∧ a = x then some v else latestGaugeValue i o x
+  | .collect _ _ :: o, x => latestGaugeValue i o x
+  | .create _ :: o, x => latestGaugeValue i o x
+  | .addcb _ _ :: o, x => latestGaugeValue i o x
+  | .rmcb _ _ :: o, x => latestGaugeValue i o x
+  | .destroy _ :: o, x => latestGaugeValue i o x
+
+theorem latestRec_lopsOf (c : Cfg) (i : Nat) (x : Nat) : ∀ h : List AOp,
+    (latestRec (lopsOf c i h) x).map (·.v) = latestGaugeValue i h x
+  | [] => rfl
+  | .grec j a v :: o => by
+    simp only [lopsOf, latestGaugeValue]
+    by_cases hc : j = i ∧ (kindsOf o)[i]? = some .syncGauge
+    · simp only [hc, and_self, if_true, latestRec, true_and]
+      by_cases ha : a = x
+      · simp [ha]
+      · simp only [ha, if_false]; exact latestRec_lopsOf c i x o
+    · have hc' : ¬ (j = i ∧ (kindsOf o)[i]? = some .syncGauge ∧ a = x) := fun h => hc ⟨h.1, h.2.1⟩
+      simp only [hc, hc', if_false]; exact latestRec_lopsOf c i x o
+  | .collect r s :: o => by simpa [lopsOf, latestGaugeValue, latestRec] using latestRec_lopsOf c i x o
+  | .create k :: o => latestRec_lopsOf c i x o
+  | .addcb _ _ :: o => latestRec_lopsOf c i x o
+  | .rmcb _ _ :: o => latestRec_lopsOf c i x o
+  | .destroy _ :: o => latestRec_lopsOf c i x o
+
+theorem grecordAll_clock : ∀ (ms : DMap) (s : GaugeStorage) (clock : Nat), clock ≤ (grecordAll s clock ms).2
+  | [], _, _ => Nat.le_refl _
+  | (a, v) :: t, s, clock => by
+    simp only [grecordAll]
+    exact Nat.le_trans (Nat.le_succ _) (grecordAll_clock t _ _)
+
+theorem observeOne_sg (script : Script) (m : AMeter) (inv : Reg) :
+    (observeOne script m inv).sgauges = m.sgauges ∧ m.clock ≤ (observeOne script m inv).clock := by
+  unfold observeOne
+  cases hk : m.kinds[inv.instr]? with
+  | none => simp
+  | some k =>
+    cases k
+    · simp
+    · simp
+    · exact ⟨rfl, grecordAll_clock _ _ _⟩
+    · simp
+
+theorem foldl_observe_sg (script : Script) : ∀ (l : Registry) (m : AMeter),
+    (l.foldl (observeOne script) m).sgauges = m.sgauges ∧ m.clock ≤ (l.foldl (observeOne script) m).clock
+  | [], _ => ⟨rfl, Nat.le_refl _⟩
+  | inv :: t, m => by
+    obtain ⟨a1, a2⟩ := observeOne_sg script m inv
+    obtain ⟨b1, b2⟩ := foldl_observe_sg script t (observeOne script m inv)
+    simp only [List.foldl_cons]
+    exact ⟨b1.trans a1, Nat.le_trans a2 b2⟩
+
+/-- the meter state is consistent with history `h`, from the point of view of synchronous gauge `i` -/
+structure SGInv (c : Cfg) (i : Nat) (h : List AOp) (m : AMeter) : Prop where
+  kinds : m.kinds = kindsOf h
+  collects : m.collects = collectsInA h
+  storage : m.sgauges i = sgrunRev c (lopsOf c i h)
+  bound : maxTs (lopsOf c i h) ≤ m.clock
+  inc : Increasing (lopsOf c i h)
+
+theorem sginv_run (c : Cfg) (i : Nat) : ∀ h : List AOp, SGInv c i h (amrunRev c h)
+  | [] => ⟨rfl, rfl, rfl, Nat.le_refl _, trivial⟩
+  | op :: o => by
+    have hi := sginv_run c i o
+    cases op with
+    | create k => exact ⟨by simp [amrunRev, amstep, kindsOf, hi.kinds], hi.collects, hi.storage, hi.bound, hi.inc⟩
+    | addcb j cb => exact ⟨hi.kinds, hi.collects, hi.storage, hi.bound, hi.inc⟩
+    | rmcb j cb => exact ⟨hi.kinds, hi.collects, hi.storage, hi.bound, hi.inc⟩
+    | destroy j => exact ⟨hi.kinds, hi.collects, hi.storage, hi.bound, hi.inc⟩
+    | grec j a v =>
+      simp only [amrunRev, amstep]
+      by_cases hc : j = i ∧ (kindsOf o)[i]? = some .syncGauge
+      · obtain ⟨rfl, hk⟩ := hc
+        have hk' : (amrunRev c o).kinds[j]? = some .syncGauge := by rw [hi.kinds]; exact hk
+        have hl : lopsOf c j (.grec j a v :: o) = .record a ⟨v, (amrunRev c o).clock + 1⟩ :: lopsOf c j o := by
+          simp [lopsOf, hk]
+        simp only [hk']
+        refine ⟨hi.kinds, hi.collects, ?_, ?_, ?_⟩
+        · rw [hl]; simp only [setAt_same, sgrunRev]; rw [hi.storage]
+        · rw [hl]; simp only [maxTs]
+          exact Nat.max_le.mpr ⟨Nat.le_refl _, Nat.le_trans hi.bound (Nat.le_succ _)⟩
+        · rw [hl]; exact ⟨Nat.lt_succ_of_le hi.bound, hi.inc⟩
+      · have hl : lopsOf c i (.grec j a v :: o) = lopsOf c i o := by simp [lopsOf, hc]
+        cases hk : (amrunRev c o).kinds[j]? with
+        | none => exact ⟨hi.kinds, hi.collects, by rw [hl]; exact hi.storage, by rw [hl]; exact hi.bound, by rw [hl]; exact hi.inc⟩
+        | some k =>
+          cases k
+          · exact ⟨hi.kinds, hi.collects, by rw [hl]; exact hi.storage, by rw [hl]; exact hi.bound, by rw [hl]; exact hi.inc⟩
+          · exact ⟨hi.kinds, hi.collects, by rw [hl]; exact hi.storage, by rw [hl]; exact hi.bound, by rw [hl]; exact hi.inc⟩
+          · exact ⟨hi.kinds, hi.collects, by rw [hl]; exact hi.storage, by rw [hl]; exact hi.bound, by rw [hl]; exact hi.inc⟩
+          · have hne : i ≠ j := by
+              intro e; subst e
+              apply hc; refine ⟨rfl, ?_⟩; rw [← hi.kinds]; exact hk
+            refine ⟨hi.kinds, hi.collects, ?_, by rw [hl]; exact Nat.le_trans hi.bound (Nat.le_succ _), by rw [hl]; exact hi.inc⟩
+            rw [hl]; simp only [setAt_other _ _ hne]; exact hi.storage
+    | collect r script =>
+      obtain ⟨o1, o2, _⟩ := foldl_observe_sums script i (invocations (amrunRev c o).registry) (amrunRev c o)
+      obtain ⟨g1, g2⟩ := foldl_observe_sg script (invocations (amrunRev c o).registry) (amrunRev c o)
+      have hl : lopsOf c i (.collect r script :: o) = .collect r (collectsInA o + 1) :: lopsOf c i o := rfl
+      simp only [amrunRev, amstep, amcollect, observe_eq_foldl]
+      refine ⟨o1.trans hi.kinds, by simp [collectsInA, hi.collects], ?_, ?_, by rw [hl]; exact hi.inc⟩
+      · rw [hl]; simp only [sgrunRev]; rw [g1, hi.storage, hi.collects]
+      · rw [hl]; simp only [maxTs]; exact Nat.le_trans hi.bound g2
+
+/-- the points of what a reader received for a gauge -/
+def lvPoints : Option Out → LMap
+  | some (.lv md) => md.points
+  | _ => []
+
+/-- **gauge_reports_latest for synchronous gauges, at the meter**: for every meter history — gauge `Record` calls
+    interleaved with the creation of other instruments, callback registrations and collections by any readers, delta
+    or cumulative — a collection reports for synchronous gauge `i`, per attribute set, the value most recently
+    recorded (and a point exactly for the sets ever recorded). -/
+theorem meter_sync_gauge_reports_latest (c : Cfg) (i : Nat) (h : List AOp) (r : Nat) (script : Script) (hr : r < c.n)
+    (hk : (kindsOf h)[i]? = some .syncGauge) (x : Nat) :
+    ((lvPoints ((amcollect c (amrunRev c h) r script).2.2 i)).lookup x).map (·.v) = latestGaugeValue i h x := by
+  have hi := sginv_run c i h
+  obtain ⟨o1, _, _⟩ := foldl_observe_sums script i (invocations (amrunRev c h).registry) (amrunRev c h)
+  obtain ⟨g1, _⟩ := foldl_observe_sg script (invocations (amrunRev c h).registry) (amrunRev c h)
+  rw [← latestRec_lopsOf c i x h, ← gauge_reports_latest_sync c (lopsOf c i h) hi.inc r (collectsInA h + 1) hr x]
+  simp only [amcollect, observe_eq_foldl]
+  rw [o1, hi.kinds, hk, g1, hi.storage, hi.collects]
+  cases (sgcollect c (sgrunRev c (lopsOf c i h)) r (collectsInA h + 1)).2 <;> rfl
+
+/-- example (not vacuous): two records on one attribute set, a delta reader still receives the latest value -/
+example :
+    let c : Cfg := ⟨[.delta]⟩
+    let h : List AOp := [.grec 0 2 7, .grec 0 2 5, .create .syncGauge]
+    ((lvPoints ((amcollect c (amrunRev c h) 0 (fun _ => [])).2.2 0)).lookup 2).map (·.v) = some 7 := by decide
+
 end Otel.C17
